@@ -147,6 +147,12 @@ def run(ctx) -> None:
                         t = ast.unparse(arg) if arg is not None else ""
                         ctx.check("stop_event" in t, RW, construct, f"`{t}` enqueued on the observer event queue: neither the stop sentinel nor an (event, watch) pair", loc)
     ctx.count("producer_sites", nprod)
+    # "an event identical to the immediately preceding still-undelivered one may be coalesced into it" — and nothing else may be
+    # dropped by the queue (instance shared with C16)
+    RQ = ctx.rule("C04/queue-drops-only-pending-duplicates", "the event queue skips an item only if it equals the last enqueued, still pending item (shared with C16)", floor=2)
+    from .c16 import skip_decision
+
+    skip_decision(ctx, RQ)
     ctx.assumptions += ["threading.RLock provides mutual exclusion and re-entrancy", "queue.Queue is FIFO and hands each item to exactly one get()"]
 
 
